@@ -591,7 +591,8 @@ class TLSConnection(TLSRecordLayer):
         if serverHello.getExtension(ExtensionType.encrypt_then_mac):
             self._recordLayer.encryptThenMAC = True
 
-        if serverHello.getExtension(ExtensionType.extended_master_secret):
+        if serverHello.getExtension(ExtensionType.extended_master_secret) \
+                and self.version > (3, 0):
             self.extendedMasterSecret = True
 
         # If the server elected to resume the session, it is handled here.
@@ -2438,7 +2439,10 @@ class TLSConnection(TLSRecordLayer):
             self._recordLayer.encryptThenMAC = True
 
         if settings.useExtendedMasterSecret:
-            if clientHello.getExtension(ExtensionType.extended_master_secret):
+            # the extended master secret is not defined for SSLv3
+            if clientHello.getExtension(
+                    ExtensionType.extended_master_secret) and \
+                    self.version > (3, 0):
                 extensions.append(TLSExtension().create(ExtensionType.
                                                         extended_master_secret,
                                                         bytearray(0)))
